@@ -471,6 +471,11 @@ class Scenario:
                 ln = min(self.segsize, self.size - off)
             self.reads.append({"id": "r%d" % r, "node": "n%d" % node, "off": off, "len": ln, "trig": trig,
                                "steps": rng.randint(1, 12)})
+        if self.profile == "c46" and len(self.reads) >= 2 and rng.random() < 0.3:
+            # a reader that goes away (its consumer calls stopProducing, as a closed HTTP connection does) while other
+            # readers of the same node are waiting: the others must still be served
+            victim = rng.choice(self.reads[:-1]) if rng.random() < 0.8 else rng.choice(self.reads)
+            victim["stop_after"] = rng.choice([0, 0, 1, 2, 4, 9])
 
     # ---------- ground truth ----------
     def ground_truth(self):
@@ -503,6 +508,8 @@ class Scenario:
         self.events.append({"ev": "Read", "r": spec["id"], "node": spec["node"], "off": spec["off"], "len": spec["len"]})
         cons = RecConsumer(self, spec["id"], spec["off"])
         self.pending_reads.add(spec["id"])
+        if "stop_after" in spec:
+            self.stoppers.append([spec["stop_after"], spec["id"], cons])
         try:
             d = node.read(cons, spec["off"], spec["len"])
         except Exception as e:      # synchronous failure of read() is a result, too
@@ -627,6 +634,7 @@ class Scenario:
         todo = list(self.reads)
         steps = 0
         countdown = None
+        self.stoppers = []
         self.start_read(todo.pop(0))
         nres = 0
         while True:
@@ -647,8 +655,16 @@ class Scenario:
                     nres = len(self.resolved_order)
                     self.start_read(todo.pop(0))
                     continue
+            due = [st for st in self.stoppers if st[0] <= 0 and not any(t2.get("trig") == "now" for t2 in todo[:1])]
+            for st in due:
+                self.stoppers.remove(st)
+                if st[1] in self.pending_reads and st[2].producer is not None:
+                    self.events.append({"ev": "Stop", "r": st[1]})
+                    st[2].producer.stopProducing()
             if self.env_step():
                 steps += 1
+                for st in self.stoppers:
+                    st[0] -= 1
                 if countdown is not None:
                     countdown -= 1
                 if self.repeat >= LIVELOCK_REPEATS:
